@@ -368,8 +368,22 @@ fn finish_inflight(w: &mut World, wi: usize, cid: &str) -> Option<bool> {
     *w.sends_by_wid_live.entry(idx).or_insert(0) -= 1;
     w.live_wid[wi] -= 1;
     let before = w.waker.queued();
+    let raw_before = w.ends[wi].counter_raw();
     drop(inf); // the real WorkerCounterGuard::drop: dec (+ wake)
-    Some(w.waker.queued() > before)
+    let crossed = w.waker.queued() > before;
+    // a release queues a notification exactly when it takes the worker from its limit to one below — whatever the counter
+    // had been pushed to by a forced dispatch after a fault (seed16 C08-31: `fetch_sub(1) > limit` instead of `- 1 == limit`,
+    // the same for every value reachable without a fault). The shared counter is biased by one.
+    let at_limit = raw_before >= 1 && raw_before - 1 == w.limit;
+    if crossed != at_limit {
+        let msg = format!(
+            "a connection ended at worker {idx} with {} in progress (limit {}): a WorkerAvailable notification was {}queued, it must {}be",
+            raw_before.saturating_sub(1), w.limit, if crossed { "" } else { "not " }, if at_limit { "" } else { "not " });
+        for p in ["C03", "C08", "C02"] {
+            w.t3.push((p.into(), msg.clone()));
+        }
+    }
+    Some(crossed)
 }
 
 struct Case {
